@@ -159,4 +159,57 @@ func init() {
 		Replay: map[string]*ReplaySpec{
 			"VerifC06Task": {PkgDir: "pkg/runner", File: "C06_replay_test.go", Test: "TestVerifReplayC06"},
 			"*":            {PkgDir: "cmd/taskctl", File: "C07_cli_replay_test.go", Test: "TestVerifReplayC07"}}})
+
+	c09jobs := func(tier string) []*Job {
+		var js []*Job
+		for mask := int64(0); mask < 64; mask++ {
+			if mask&16 == 0 {
+				js = append(js, &Job{Pkg: pkgConfig, Func: "VerifC09Env", Args: []int64{mask, 0, 0}, Timeout: 20 * time.Minute})
+			}
+			js = append(js, &Job{Pkg: pkgConfig, Func: "VerifC09Env", Args: []int64{mask, 1, 0}, Timeout: 20 * time.Minute})
+		}
+		for mask := int64(0); mask < 8; mask++ {
+			if mask&1 == 0 {
+				js = append(js, &Job{Pkg: pkgConfig, Func: "VerifC09Dir", Args: []int64{mask, 0}, Timeout: 10 * time.Minute})
+			}
+			js = append(js, &Job{Pkg: pkgConfig, Func: "VerifC09Dir", Args: []int64{mask, 1}, Timeout: 10 * time.Minute})
+		}
+		return js
+	}
+	register(&PropSpec{ID: "C09", Jobs: c09jobs,
+		Covers: []string{"C09.command-saw-environment", "C09.two-levels-define-the-name", "C09.dir-checked"},
+		Bounds: map[string]interface{}{
+			"quick":    "one name defined at every subset of the six levels (64 subsets as stages, 32 as direct runs), each level's value an independent symbolic member of {a, m, z} (so higher levels sort below, equal to and above lower ones), one unrelated parent variable; directories: every subset of stage/task/context dir, direct and as a stage, for the before hook, the command and the after hook",
+			"thorough": "same as quick (free-string values of length <= 2 were tried: the mixed string/bit-vector queries did not finish within 20 minutes in z3 5.1.0, so that bound is not registered)",
+		},
+		Outside:     []string{"how mvdan.cc/sh exports the Environ to child processes", "template-valued directories (utils.RenderString stubbed as identity)", "values outside the three-element ordered domain {a, m, z} (all order relations between levels are covered; arbitrary strings are not)", "the env_file parser (utils.ReadEnvFile stubbed to return the map; its crashes are C15)"},
+		Assumptions: []string{"stubs: os.Environ, os.Getwd, utils.ReadEnvFile, utils.RenderString (identity), mvdan syntax.Parser.Parse and interp.New/StdIO/Runner.Run (records Env and Dir)", "executed for real: config.buildTask/buildPipeline/buildContext, TaskRunner.Run, TaskCompiler, Scheduler.Schedule/runStage (thread mode), DefaultExecutor.Execute, utils.ConvertEnv, mvdan expand.ListEnviron + listEnviron.Get", "sort.Strings modelled as a compare-exchange network over str.<"},
+		Replay:      map[string]*ReplaySpec{"*": {PkgDir: "internal/config", File: "C09_replay_test.go", Test: "TestVerifReplayC09"}}})
+
+	c10jobs := func(tier string) []*Job {
+		var js []*Job
+		for mask := int64(0); mask < 16; mask++ {
+			if mask&8 == 0 {
+				js = append(js, &Job{Pkg: pkgMain, Func: "VerifC10Vars", Args: []int64{mask, 0}, Timeout: 20 * time.Minute})
+			}
+			js = append(js, &Job{Pkg: pkgMain, Func: "VerifC10Vars", Args: []int64{mask, 1}, Timeout: 20 * time.Minute})
+		}
+		maxn := int64(4)
+		if tier == "thorough" {
+			maxn = 5
+		}
+		for n := int64(0); n <= maxn; n++ {
+			js = append(js, &Job{Pkg: pkgMain, Func: "VerifC10Args", Args: []int64{n}, Timeout: 30 * time.Minute})
+		}
+		return js
+	}
+	register(&PropSpec{ID: "C10", Jobs: c10jobs,
+		Covers: []string{"C10.rendered", "C10.undefined", "C10.two-levels", "C10.args-checked", "C10.two-args"},
+		Bounds: map[string]interface{}{
+			"quick":    "one template variable defined at every subset of {configuration (as present in cfg.Variables after loading), --set, task, stage}, values independent symbolic members of {a, m, z}, target run directly and as a pipeline stage; argument vectors `t1` + 0..4 symbolic words over {--, t1, -x, a=b, w}",
+			"thorough": "argument vectors up to 5 words",
+		},
+		Outside:     []string{"how configuration-level `variables:` travel from the file into cfg.Variables (Config.merge -> mergo, reflection: not encodable; a defect there - they are dropped - is known from reading and NOT detectable by this check)", "real text/template semantics (stub: single-reference template resolves to the value if the key is present, error otherwise - the missingkey=error contract)", "Root (set inside Loader.Load, stubbed)", "urfave/cli flag parsing"},
+		Assumptions: []string{"stubs: Loader.Load returns the harness configuration; cli.Context accessors; utils.RenderString model; shell parser/interpreter; os.Environ/Getwd", "executed for real: the app's Before hook (--set loop), rootAction, buildTaskRunner, taskArgs, runTarget/runTask/runPipeline, NewTaskRunner, TaskRunner.Run, TaskCompiler, Scheduler.Schedule/runStage, DefaultExecutor.Execute"},
+		Replay:      map[string]*ReplaySpec{"*": {PkgDir: "cmd/taskctl", File: "C10_replay_test.go", Test: "TestVerifReplayC10"}}})
 }
